@@ -364,8 +364,17 @@ impl From<embedded_graphics_core::pixelcolor::Rgb565> for Color {
         } else if rgb == RgbColor::WHITE {
             Color::White
         } else {
-            // choose closest color
-            if (rgb.r() as u16 + rgb.g() as u16 + rgb.b() as u16) > 255 * 3 / 2 {
+            // choose closest color: mean of the channels, each relative to its own maximum,
+            // above one half (the channels of this format are 5 or 6 bit wide, not 8)
+            let (max_r, max_g, max_b) = (
+                embedded_graphics_core::pixelcolor::Rgb565::MAX_R as u32,
+                embedded_graphics_core::pixelcolor::Rgb565::MAX_G as u32,
+                embedded_graphics_core::pixelcolor::Rgb565::MAX_B as u32,
+            );
+            let weighted = rgb.r() as u32 * max_g * max_b
+                + rgb.g() as u32 * max_r * max_b
+                + rgb.b() as u32 * max_r * max_g;
+            if 2 * weighted > 3 * max_r * max_g * max_b {
                 Color::White
             } else {
                 Color::Black
@@ -394,8 +403,17 @@ impl From<embedded_graphics_core::pixelcolor::Rgb555> for Color {
         } else if rgb == RgbColor::WHITE {
             Color::White
         } else {
-            // choose closest color
-            if (rgb.r() as u16 + rgb.g() as u16 + rgb.b() as u16) > 255 * 3 / 2 {
+            // choose closest color: mean of the channels, each relative to its own maximum,
+            // above one half (the channels of this format are 5 or 6 bit wide, not 8)
+            let (max_r, max_g, max_b) = (
+                embedded_graphics_core::pixelcolor::Rgb555::MAX_R as u32,
+                embedded_graphics_core::pixelcolor::Rgb555::MAX_G as u32,
+                embedded_graphics_core::pixelcolor::Rgb555::MAX_B as u32,
+            );
+            let weighted = rgb.r() as u32 * max_g * max_b
+                + rgb.g() as u32 * max_r * max_b
+                + rgb.b() as u32 * max_r * max_g;
+            if 2 * weighted > 3 * max_r * max_g * max_b {
                 Color::White
             } else {
                 Color::Black
